@@ -314,6 +314,8 @@ func init() {
 		Assumptions: []string{"a writer that returns n < len(p) with a nil error violates io.Writer; only absence of a panic is required there"},
 		Setup:       func(tier string) { c20.eng = c20Engine(); c20Build(tier) },
 		Families:    c20Families,
-		Bound:       func(string) string { return "every write index of every template; one fault per run (rendering must stop at the first)" },
+		Bound: func(string) string {
+			return "every write index of every template; one fault per run (rendering must stop at the first)"
+		},
 	})
 }
